@@ -192,8 +192,9 @@ def run_cells(cells, res, label):
             exps.append(e)
             w.inject(src, NODE, data, local_ip=LOCALS[cell[4]])
         while True:
-            for dg in list(w.pool):     # the peers see (and auto-ACK) what the node sends
-                w.deliver(dg)
+            while w.pool:               # the peers see (and auto-ACK) what the node sends, until the wire is quiet
+                for dg in list(w.pool):
+                    w.deliver(dg)
             tn = w.loop.next_timer()
             if tn is None or tn > t0 + 1.5:
                 break
